@@ -83,13 +83,15 @@ def seeded(args):
     for patch, pid, label in jobs:
         if only and only not in label and only != pid:
             continue
-        p = subprocess.run([os.path.join(root, "tools", "mutant.sh"), patch, pid, "--tier", "quick"], capture_output=True, text=True)
-        caught = p.returncode == 1 and "VIOLATION property=%s" % pid in p.stdout
+        p = subprocess.run([os.path.join(root, "tools", "mutant.sh"), patch, pid, "--tier", "quick"], capture_output=True, text=True,
+                           env=dict(os.environ, REPLAY_TOO="1"))
+        caught = p.returncode == 1 and "VIOLATION property=%s" % pid in p.stdout and "REPLAY-REPRODUCES" in p.stdout
         cls = ""
         for line in p.stdout.splitlines():
             if line.startswith("violation class="):
                 cls = line[:110]
-        print("%-6s %-55s %s  %s" % (pid, label, "caught" if caught else "MISSED (rc=%d)" % p.returncode, cls), flush=True)
+        rep = "replay ok" if "REPLAY-REPRODUCES" in p.stdout else ("REPLAY FAILED" if p.returncode == 1 else "")
+        print("%-6s %-55s %s %s  %s" % (pid, label, "caught" if caught else "MISSED (rc=%d)" % p.returncode, rep, cls), flush=True)
         if not caught:
             missed += 1
     print("selftest-seeded: %d jobs, %d missed" % (len(jobs), missed))
